@@ -19,6 +19,7 @@ def brief (s : St) : String :=
 structure DSt where
   ls : Nat := Generated.listSize
   pinned : Bool := false
+  quiet : Bool := false
   s : St := {}
 
 def step (d : DSt) : List String → DSt × String
@@ -27,15 +28,16 @@ def step (d : DSt) : List String → DSt × String
     | some k => ({ d with ls := k, s := {} }, "ok")
     | none => (d, "bad-op")
   | ["pinned", b] => ({ d with pinned := b == "1" }, "ok")
+  | ["quiet", b] => ({ d with quiet := b == "1" }, "ok")
   | ["add", ip, m] => match ofHex? ip, ofHex? m with
     | some ip, some m =>
       let (s', ok) := Filter.add d.ls d.s ip m
-      ({ d with s := s' }, (if ok then "nil " else "ErrInvalidIPv4CIDR ") ++ brief s')
+      ({ d with s := s' }, if d.quiet then "skip" else (if ok then "nil " else "ErrInvalidIPv4CIDR ") ++ brief s')
     | _, _ => (d, "bad-op")
   | ["rem", ip, m] => match ofHex? ip, ofHex? m with
     | some ip, some m =>
       let (s', ok) := Filter.remove d.s ip m
-      ({ d with s := s' }, (if ok then "nil " else "ErrInvalidIPv4CIDR ") ++ brief s')
+      ({ d with s := s' }, if d.quiet then "skip" else (if ok then "nil " else "ErrInvalidIPv4CIDR ") ++ brief s')
     | _, _ => (d, "bad-op")
   | ["has", ip] => match ofHex? ip with
     | some ip => (d, toString (if d.pinned then containsPinned d.s ip else contains d.s ip))
